@@ -47,7 +47,7 @@ func runC08(c *an.Ctx) {
 	}
 	drStr := depthRepeat.ExactString()
 
-	// ---- role discovery: the refill helper = function with an int parameter R such that a child-adding loop runs only where R != 0
+	// ---- role discovery: the refill helper = function whose child-adding loop counts from an int parameter R up to depthRepeat
 	var refill *ssa.Function
 	refillParam := -1
 	for _, fn := range tfns {
@@ -55,41 +55,26 @@ func runC08(c *an.Ctx) {
 			if !an.XBInCycle(call.Block()) {
 				continue
 			}
-			for e, r := range an.XBEdgeRels(fn) {
-				par, ok := r.X.(*ssa.Parameter)
-				k, isK := an.XBInt64(r.Y)
-				if !ok || !isK || k != 0 || r.Op != token.NEQ || an.XBInCycle(e.From) {
+			// the repeat counter of that loop starts at an int parameter: counter = phi(param, counter+1) < depthRepeat
+			for e2, r2 := range an.XBEdgeRels(fn) {
+				ph, isPhi := r2.X.(*ssa.Phi)
+				k2, isK2 := an.XBInt64(r2.Y)
+				if !isPhi || !isK2 || r2.Op != token.LSS || fmt.Sprint(k2) != drStr || !an.XBMustCross(fn, nil, call, e2) {
 					continue
 				}
-				if !an.XBMustCross(fn, nil, call, e) {
-					continue
-				}
-				// ... and the repeat counter of that loop starts at the parameter: counter = phi(param, counter+1) < depthRepeat
-				startsAtParam := false
-				for e2, r2 := range an.XBEdgeRels(fn) {
-					ph, isPhi := r2.X.(*ssa.Phi)
-					k2, isK2 := an.XBInt64(r2.Y)
-					if !isPhi || !isK2 || r2.Op != token.LSS || fmt.Sprint(k2) != drStr || !an.XBMustCross(fn, nil, call, e2) {
-						continue
-					}
-					for _, pe := range ph.Edges {
-						if pe == ssa.Value(par) {
-							startsAtParam = true
+				for _, pe := range ph.Edges {
+					if par, ok := pe.(*ssa.Parameter); ok {
+						for i, q := range fn.Params {
+							if q == par {
+								refill, refillParam = fn, i
+							}
 						}
-					}
-				}
-				if !startsAtParam {
-					continue
-				}
-				for i, q := range fn.Params {
-					if q == par {
-						refill, refillParam = fn, i
 					}
 				}
 			}
 		}
 	}
-	if !c.Need(refill != nil, "last-child refill helper (function of package trickle whose child-adding loop runs only where an int parameter is != 0 and counts from that parameter up to depthRepeat)") {
+	if !c.Need(refill != nil, "last-child refill helper (function of package trickle whose child-adding loop counts from an int parameter up to depthRepeat)") {
 		return
 	}
 	// append path: functions of package trickle that (transitively) call the refill helper, plus the helper
@@ -266,6 +251,97 @@ func runC08(c *an.Ctx) {
 		}
 	}
 	c.Min("O3 calls of the refill helper", nO3, 2)
+
+	// ---- O3b: the refill helper finishes the partially filled layer before it reports success.
+	// Its callers advance the layer counter whenever repeat != 0, so a success return that skips the top-up loop
+	// leaves the layer short and later sub-trees are built for the wrong depth.
+	{
+		fn := refill
+		par := fn.Params[refillParam]
+		db := ssa.Value(nil)
+		for _, q := range fn.Params {
+			if an.TypeIs(q.Type(), c07H, "DagBuilderHelper") {
+				db = q
+			}
+		}
+		// (a) repeat == 0: nothing to top up
+		cut := an.XBEdgesWhere(fn, func(r an.XBRel) bool {
+			k, isK := an.XBInt64(r.Y)
+			return isK && k == 0 && r.X == ssa.Value(par) && r.Op == token.EQL
+		})
+		// (b) no sub-trees at all: NumChildren() <= Maxlinks()
+		cut = cut.Union(an.XBEdgesWhere(fn, func(r an.XBRel) bool {
+			_, a := an.IsCallTo(r.X, an.M(c07H, "FSNodeOverDag", "NumChildren"))
+			_, b := an.IsCallTo(r.Y, an.M(c07H, "DagBuilderHelper", "Maxlinks"))
+			return a && b && (r.Op == token.LEQ || r.Op == token.LSS)
+		}))
+		// (c) the input is exhausted
+		if db != nil {
+			var done []ssa.Value
+			for _, call := range an.Calls(fn, an.M(c07H, "DagBuilderHelper", "Done")) {
+				if v := an.CallValue(call); v != nil {
+					done = append(done, v)
+				}
+			}
+			cut = cut.Union(an.BoolEdges(fn, done, true))
+		}
+		// (d) the path ran through the top-up loop: edges leaving the cycle of the looped AddChild
+		inLoop := map[*ssa.BasicBlock]bool{}
+		for _, call := range an.Calls(fn, addChild) {
+			if !an.XBInCycle(call.Block()) {
+				continue
+			}
+			hd := call.Block()
+			for _, b := range fn.Blocks {
+				if an.Reaches(fn, hd.Instrs[0], b.Instrs[0], nil, nil) && an.Reaches(fn, b.Instrs[0], hd.Instrs[0], nil, nil) {
+					inLoop[b] = true
+				}
+			}
+			inLoop[hd] = true
+		}
+		for b := range inLoop {
+			for si, sb := range b.Succs {
+				if !inLoop[sb] {
+					cut[an.Edge{From: b, Succ: si}] = true
+				}
+			}
+		}
+		// the top-up loop itself runs only where repeat != 0 (with repeat == 0 the layer is empty and is filled by the caller)
+		nz := an.XBEdgesWhere(fn, func(r an.XBRel) bool {
+			k, isK := an.XBInt64(r.Y)
+			return isK && r.X == ssa.Value(par) && ((k == 0 && (r.Op == token.NEQ || r.Op == token.GTR)) || (k == 1 && r.Op == token.GEQ))
+		})
+		for _, call := range an.Calls(fn, addChild) {
+			if !an.XBInCycle(call.Block()) {
+				continue
+			}
+			c.Check(len(nz) > 0 && an.GuardedBy(fn, nil, call, nz), "O3", "R-DOM", an.FuncName(fn), "top-up-loop<=repeat!=0", call.Pos(),
+				"the top-up loop runs only where repeat != 0", "the refill helper tops the layer up even when repeat == 0: the callers fill that (empty) layer themselves, so it receives twice depthRepeat sub-trees and every later sub-tree sits in the wrong layer")
+		}
+		nRet := 0
+		for _, r := range an.Returns(fn) {
+			if c07IsFailureReturn(fn, r) {
+				continue
+			}
+			nRet++
+			c.Check(!an.Reaches(fn, nil, r, cut, nil), "O3", "R-POST", an.FuncName(fn), "success-return<=layer-topped-up", r.Pos(),
+				"success is reported only after the top-up loop ran, or where repeat == 0 / there are no sub-trees / the input is exhausted",
+				"the refill helper can return success with repeat != 0 and data left without running the loop that completes the current layer: its callers then move on to the next layer, so the remaining slots of this layer receive sub-trees built for a deeper layer (child dag was too deep)")
+		}
+		c.Min("O3 success returns of the refill helper", nRet, 2)
+	}
+
+	// ---- O1c: the exported Append consumes the whole stream, and nodes are committed after their last change
+	if app := p.Func(c07Tr, "", "Append"); c.Need(app != nil, "trickle.Append") {
+		ok, esc := c07Drains(app, map[*ssa.Function]bool{})
+		pos := app.Pos()
+		if esc != nil {
+			pos = esc.Pos()
+		}
+		c.Check(ok, "O1", "R-DOM", an.FuncName(app), "success-return<=builder-drained", pos,
+			"Append returns success only where db.Done() was tested true", "Append can return success while the splitter may still hold data: appended bytes are silently dropped")
+	}
+	c.Min("O1 Commit() calls in the append path", c07CommitAfterMutations(c, path, only), 3)
 
 	// ---- O4: constants and layer arguments
 	info := p.Func(c07Tr, "", "trickleDepthInfo")
